@@ -174,6 +174,17 @@ def gen_cases(tier: str, seed: int) -> List[Dict]:
             a = S.make_poly_spec("a", names, exps, shape, rng, 3, zero_prob=0.0, literal_prob=0.3, mode="raw")
             n += 1
             cases.append({"id": "%s-%03d-rebuild-unusedlead" % (PROP, n), "op": "rebuild", "operands": [a, a], "expr": 0, "limits": lim})
+    # 1b'. strided views incl. layouts whose axis permutation is not its own inverse (3-d rotated, 4-d reversed)
+    for shape, view in [((2, 3), "T"), ((2, 3, 2), "cyc"), ((3, 2, 2), "cyc"), ((2, 1, 3, 2), "T"), ((2, 3, 3, 2), "T"), ((2, 2, 3), "swap"), ((2, 3, 2, 2), "cyc")]:
+        a = S.make_poly_spec("a", ("q0", "q1"), [[0, 0], [1, 0], [0, 2]], shape, rng, 3, zero_prob=0.0, literal_prob=1.0, mode="raw")
+        k = 0
+        for col in a["slots"]:  # every element distinct (a permutation of positions must show)
+            for i in range(len(col)):
+                k += 1
+                col[i] = k
+        a["view"] = view
+        n += 1
+        cases.append({"id": "%s-%03d-rebuild-view" % (PROP, n), "op": "rebuild", "operands": [a, a], "expr": 0, "limits": lim})
     # 1c. exponents whose storage-key character is special to str methods (digits, whitespace, control, combining characters):
     # any text-level shortcut on field names (isdigit, strip, split, isprintable ...) must not lose or merge such terms
     import unicodedata
